@@ -7,9 +7,9 @@ NOTE = ("Static analysis of /repo/j1939/*.py as parsed on every run (ast; path e
         "property; the behaviour as a whole (all inputs/schedules/histories) is NOT decided. Trusted base: the engine in "
         "/verif/sa, the rule modules, the SAE tables in /verif/spec/sae.py, CPython list/dict semantics; user callbacks are external.")
 CHECKS = {
- "C01": ("R-SEG-CEIL/CONST, R-SEQ-BASE, R-KEY-ROLE, R-HASH-INJ, R-DELIVER-GUARD, R-REFRESH, R-ORDER-SEND, R-REFUSE, R-DEST-CLASS, R-DISPATCH, R-CTS-BORDER, R-GRANT-MIN, R-WINDOW-AFFINE, R-SINGLE-FRAME, R-DELIVER-ARGS, R-FORWARD-NAMES, R-ANNOUNCED-PGN, R-BAM-FRESH, R-RTS-ACCEPT (incl. no silent drop of a legal announcement), R-PAIR-ORDER, R-SESSION-FRESH, R-REPLY-ARMS (what the CTS / end-of-message-acknowledge / abort arms must do) on j1939_21.py / electronic_control_unit.py",
+ "C01": ("R-SEG-CEIL/CONST, R-SEQ-BASE, R-KEY-ROLE, R-HASH-INJ, R-DELIVER-GUARD, R-REFRESH, R-ORDER-SEND, R-REFUSE, R-DEST-CLASS, R-DISPATCH, R-CTS-BORDER, R-GRANT-MIN, R-WINDOW-AFFINE, R-SINGLE-FRAME, R-DELIVER-ARGS, R-FORWARD-NAMES, R-ANNOUNCED-PGN, R-BAM-FRESH, R-RTS-ACCEPT (incl. no silent drop of a legal announcement), R-PAIR-ORDER, R-SESSION-FRESH, R-REPLY-ARMS (what the CTS / end-of-message-acknowledge / abort arms must do), R-BURST-BOUND on j1939_21.py / electronic_control_unit.py",
          "path-sensitive dataflow + quotient/remainder and affine domains + known-bits over the AST", "3 C01"),
- "C02": ("FD twins of C01's rules plus in-order append, numpy chunking idiom, pool pairing/ownership/ordering, window bookkeeping, announced PGN, fresh BAM session, own data buffer per receive session, state-before-send, DT minimum-length test over all legal frame lengths, sender steps (segment index advanced, end-of-message status sent), reassembly cut to the announced size, reply arms on j1939_22.py",
+ "C02": ("FD twins of C01's rules plus in-order append, numpy chunking idiom, pool pairing/ownership/ordering, window bookkeeping, announced PGN, fresh BAM session, own data buffer per receive session, state-before-send, DT minimum-length test over all legal frame lengths, sender steps (segment index advanced, end-of-message status sent), reassembly cut to the announced size and delivered when exactly complete, TP.CM length test, reply arms on j1939_22.py",
          "path-sensitive dataflow + acquire/release pairing + who-may-call over the resolved call graph", "3 C02"),
  "C06": ("delivery guard, SAE timeout constants, finite deadlines, expiry shape, re-arm-or-delete with progress, wake rule, wake-up coverage of every new deadline, finished sessions due at once, fresh BAM session, refusal condition, RTS accepted unless its own key is occupied, own data buffer per receive session",
          "dominance / must-pass over enumerated paths + affine deadline forms + constant tables", "3 C06"),
@@ -37,7 +37,7 @@ CHECKS = {
          "known-bits layout + guard truth tables + argument provenance", "3 C14"),
  "C15": ("about 95 proof obligations: identifier compose/parse inverses and positions, PGN fields/value/classification, NAME widths, J1939-81 positions, value/bytes views, arbitration comparison, getters store nothing or their memo is reset by every writer",
          "proof by exact abstract evaluation in a known-bits / bit-provenance domain (each obligation covers the whole input domain)", "3 C15"),
- "C16": ("DTC/DM1/DM22 layouts vs J1939-73, lamp table and its inverse decision tree, register/deregister key agreement, DM1 cycle, per-object receive-hook registration, receive / send / deregistration steps (R-DM1-STEPS), no local read before assignment",
+ "C16": ("DTC/DM1/DM22 layouts vs J1939-73, lamp table and its inverse decision tree, register/deregister key agreement, DM1 cycle, per-object receive-hook registration, receive / send / deregistration steps and the parser's length test over all legal lengths (R-DM1-STEPS), no local read before assignment",
          "known-bits layout vs spec tables + constant-propagated decision tree + registry key dataflow", "3 C16"),
  "C17": ("DM14/DM15 sibling composition decode o encode = identity, DM16 prefix/extraction, single-frame threshold agreement, chunk slicing, told arguments, idle reset, end-of-message hook iff multi-packet, acknowledged transport session released at once, reply-handler state stored before the frame that is answered, every legal end-of-message acknowledge completes the read, byte shortcut only for unsigned 1-byte objects, 17 transaction steps in server / client / facade (R-DM14-STEPS), no local read before assignment",
          "known-bits composition of sibling encoders/decoders + affine slice forms + threshold partition agreement", "3 C17"),
